@@ -250,6 +250,10 @@ def _run_structural(ctx):
     r5 = ctx.rule("R5", "protected paths and outputs are normalised by the same function on every path")
     from .c03 import rule_norm_path
     rule_norm_path(ctx, r5)
+    # ... and reach that function: the workflow API hands the protect entries on as written
+    from .evalhelpers import cached_witness, report_witness, workflow_api_witness
+    report_witness(r5, "src/gwf/workflow.py::Workflow::protect", "src/gwf/workflow.py:1", cached_witness(ctx, "workflow-api", workflow_api_witness),
+                   "Workflow.target / target_from_template keep protect entries whatever their spelling", select=lambda d: "protect" in d)
 
 
 def run(ctx):
